@@ -71,7 +71,7 @@ def replay(args):
                    "nowrite": r["nowrite"], "disabled": r["disabled"]}
             env_r = dict(env, JAXTYPING_DISABLE="1") if r["disabled"] else env
             p = subprocess.run([PY, os.path.join(VERIF, "harness", "cache_child.py"), json.dumps(cfg)], capture_output=True,
-                               text=True, env=env_r, timeout=300)
+                               text=True, env=env_r, timeout=1200)
             line = [l for l in p.stdout.splitlines() if l.startswith("RESULT ")]
             if not line:
                 got.append({"error": (p.stderr or p.stdout)[-400:]})
